@@ -57,6 +57,23 @@ def run(facts):
                 if not bad2 and n2:
                     bad, n_paths = None, n2
                     break
+        if bad and b.kind in ("fn", "assoc_fn") and (b.safety == "unsafe" or str(b.vis).startswith("Restricted")):
+            # a private / unsafe helper whose requirement lives with its callers (`unsafe fn move_to_fresh_vec(&mut self, shared, new_cap)`,
+            # new_cap >= len by construction at the only call site): judged in every caller with the helper spliced in
+            from .inline import contexts
+            ctxs = [c for c in contexts(facts, b) if not facts.is_test(c)]
+            if ctxs:
+                worst = None
+                tot = 0
+                for cb in ctxs:
+                    cpre = [r for r in stated_preconditions(cb, facts) if r[0] in ("le", "lt", "eq")] if cb.safety == "unsafe" else []
+                    bad2, n2 = judge_body(facts, cb, cpre)
+                    tot += n2
+                    if bad2:
+                        worst = bad2
+                        break
+                if worst is None and tot:
+                    bad, n_paths = None, tot
         key = "%s|len <= cap at every exit" % b.id
         if bad:
             res.bad(key, b.loc(), "on the path bb%s %s ends with len = %s and cap = %s, and len <= cap does not follow from the invariant at entry, the stated "
